@@ -340,6 +340,23 @@ def check_tree(tree, res):
             if not same(got, want):
                 res.violate("value-differs-at-time", t=t, detail={"tree": tree})
                 break
+    # the same coordinate buffers re-used with other contents (points updated in place, views of one pre-allocated array):
+    # the value belongs to the points as they are now, whatever the object remembers about earlier calls
+    buf = np.array([ARGS[1]["x"], ARGS[1]["y"], ARGS[1]["z"]], float)  # rows x, y, z of one buffer
+    zb = None if dims == {2} or not dims else buf[2]
+    for step, (shift, t) in enumerate(((0.0, 0.3), (1.0, 0.3), (1.0, 0.9), (-0.25, 0.9), (0.0, 0.3))):
+        buf[0] += shift  # in place: the arrays handed over are the same objects as before
+        buf[1] -= 0.5 * shift
+        tt = t if tdep else None
+        try:
+            want = ref_eval(tree, buf[0].copy(), buf[1].copy(), None if zb is None else zb.copy(), tt)
+        except Exception:  # noqa: BLE001
+            break
+        got = p(buf[0], buf[1], zb, t=tt) if tt is not None else p(buf[0], buf[1], zb)
+        res.transitions += 1
+        if not same(got, want):
+            res.violate("value-differs-after-points-updated-in-place", call=step, detail={"tree": tree})
+            break
     # structural equality
     q = build(tree)
     if not (p == q):
